@@ -19,9 +19,12 @@ def _hdr(tag, body, style):
 
 
 def build(primary, sub=None, style='len5', uid=b'Foreign Key <foreign@example.org>', created=1500000000, protect=None, sub_flags=None, extra_uid=None):
-    """-> (secret transferable key octets, description dict with the signature bodies as written)"""
+    """-> (secret transferable key octets, description dict with the signature bodies as written).
+    created=None: the pool's own creation times (so that fingerprints equal those of pool.mat(name))"""
     sp = _sp(style)
     pm = pool.mat(primary, created)
+    base = created
+    created = pm['created']
     prim_pub = RK.pub_body(pm)
     fpr = RK.fpr_of(pm)
     out = _hdr(5, RK.sec_body(pm, protect), style)
@@ -57,7 +60,7 @@ def build(primary, sub=None, style='len5', uid=b'Foreign Key <foreign@example.or
         sigs.append(b)
         out += _hdr(2, b, style)
     if sub:
-        sm = pool.mat(sub, created + 5)
+        sm = pool.mat(sub, None if base is None else created + 5)
         sub_pub = RK.pub_body(sm)
         out += _hdr(7, RK.sec_body(sm, protect), style)
         signing = sm['alg'] in (1, 17, 19, 22) and sm['alg'] != 18
